@@ -182,6 +182,61 @@ def job_compare(ctx, jr, cap):
             H.finish_job(jr, e, res)
 
 
+def job_split_replace(ctx, jr, cap):
+    """split and replace (plumbing + the relation of the statement): the pieces of split joined by the separator give back the
+    text; replace = the pieces joined by the replacement; wrong argument counts are the error result"""
+    from mirsym.models import split_general
+    jr.bounds = dict(text_chars=cap, pattern_chars='1..2 (non-empty: an empty separator / pattern is outside the model)', replacement_chars=2)
+    vs = ctx.types.enums['types::runtime::StateValue']; STRK, LIST, SUB = vs.index('String'), vs.index('List'), vs.index('SubState')
+    for cmd in ('split', 'replace'):
+        for n in ((1, 2) if cmd == 'split' else (2, 3)):
+            e = ctx.engine(unwind=cap + 6); e.int_digits = 2
+            e.hooks['utils::state::put_handle'] = hook_put_handle
+            t0 = time.time()
+            text = H.sym_str(e, 'text', cap); pat = H.sym_str(e, 'pattern', 2); rep = H.sym_str(e, 'replacement', 2)
+            e.assume(pat.len >= 1)
+            args = [text, pat, rep][:n]
+            ctxv, st = invocation_context(e, V(n, args))
+            rs, rv = run_command(e, TY % cmd, ctxv, st)
+            jr.symex_time += time.time() - t0
+            full = n == (2 if cmd == 'split' else 3)
+            obs = []
+            if not full: obs.append((rs.g, zeq(rv.d, ERR), 'too few arguments give the error result'))
+            elif cmd == 'replace':
+                pieces = split_general(e, rs, text, pat)
+                exp = S(0, [])
+                for i, x in enumerate(pieces.it):
+                    c = simp(i < pieces.len)
+                    if c is False: break
+                    nxt = str_concat(str_concat(exp, rep), x) if i > 0 else x
+                    exp = nxt if c is True else merge(c, nxt, exp)
+                obs.append((rs.g, check_result(rv, CONT, (True, exp)), 'replace returns the text with every occurrence of the pattern (from the left, non-overlapping) replaced'))
+            else:
+                out = rv.p[CONT][0] if CONT in rv.p else None
+                key = out.p[1][0] if out is not None and 1 in out.p else S(0, [])
+                post = e.read(rs, ('mem', 0, 'state', []))
+                hf, hsub, _ = map_lookup(e, rs, post, mk_str('handles'))
+                tab = hsub.p[SUB][0] if isinstance(hsub, E) and SUB in hsub.p else M([])
+                nf, nv, _ = map_lookup(e, rs, tab, key)
+                lst = nv.p[LIST][0] if isinstance(nv, E) and LIST in nv.p else V(0, [])
+                obs.append((rs.g, zand(zeq(rv.d, CONT), nf, zeq(nv.d, LIST) if isinstance(nv, E) else False), 'split returns the handle of a new array'))
+                joined = S(0, [])
+                for i, x in enumerate(lst.it):
+                    c = simp(i < lst.len)
+                    if c is False: break
+                    piece = x.p[STRK][0] if isinstance(x, E) and STRK in x.p else S(0, [])
+                    nxt = str_concat(str_concat(joined, pat), piece) if i > 0 else piece
+                    joined = nxt if c is True else merge(c, nxt, joined)
+                    obs.append((zand(rs.g, c), znot(find_first(piece, pat)[0]), 'no piece contains the separator'))
+                obs.append((rs.g, str_eq(joined, text), 'the pieces joined by the separator give back the text'))
+            for g, cnd, msg in obs: e.obligations.append(Obligation(g, cnd, 'C16 %s: %s' % (cmd, msg), 'assert', 'oracle'))
+
+            def extract(m, o=None, cmd=cmd): return dict(kind='c16_split', cmd=cmd, args=[solve.model_str(m, x) for x in args])
+            res = discharge_known(e, jr, PID, {}, extract)
+            if full: witness(jr, e, '%s with two occurrences' % cmd, zand(rs.g, text.len >= 3, match_at(text, pat, 0), zor(*[match_at(text, pat, i) for i in range(1, cap)])), extract, optional=True)
+            H.finish_job(jr, e, res)
+
+
 def job_range(ctx, jr):
     jr.bounds = dict(operands='<= 3 chars over digits, sign, x', span='end - start <= 4')
     e = ctx.engine(unwind=8); e.int_digits = 3; e.range_cap = 4
@@ -272,6 +327,22 @@ def replayer(v):
         vars_ = {'a%d' % i: x for i, x in enumerate(args)}
         script = 'r = %s %s' % (cmd, ' '.join('${a%d}' % i for i in range(len(args))))
         return H.replay(dict(mode='sdk', script=script + '\ne = get_last_error', vars=vars_))
+    if v['kind'] == 'c16_split':
+        a = v['args']
+        if v['cmd'] == 'replace':
+            out = run('replace', a); v['native'] = out
+            if out.get('panic'): return (True, 'native panic')
+            got = out['vars'].get('r'); err = out['vars'].get('e')
+            if len(a) < 3: return (not (got == 'false' and err), 'native %r' % got)
+            return (got != a[0].replace(a[1], a[2]), 'native %r, reference %r' % (got, a[0].replace(a[1], a[2])))
+        vars_ = {'a%d' % i: x for i, x in enumerate(a)}
+        script = 'r = split %s\ne = get_last_error\nn = array_length ${r}\n' % ' '.join('${a%d}' % i for i in range(len(a))) + '\n'.join('p%d = array_get ${r} %d' % (i, i) for i in range(8))
+        out = H.replay(dict(mode='sdk', script=script, vars=vars_)); v['native'] = out
+        if out.get('panic'): return (True, 'native panic')
+        if len(a) < 2: return (not (out['vars'].get('r') == 'false' and out['vars'].get('e')), 'native %r' % out['vars'].get('r'))
+        exp = a[0].split(a[1]); n_ = out['vars'].get('n')
+        got = [out['vars'].get('p%d' % i, '') for i in range(min(len(exp), 8))]
+        return (n_ != str(len(exp)) or got != exp[:8], 'native pieces %r (%s), reference %r' % (got, n_, exp))
     if v['kind'] == 'c16_relation':
         o1 = run('indexof', [v['text'], v['needle']]); v['native'] = o1
         if o1.get('panic'): return (True, 'native panic')
@@ -302,10 +373,11 @@ def main(tier, seed):
     chk.job(job_relation, 'relation', cap=cap)
     chk.job(job_range, 'range')
     chk.job(job_compare, 'compare', cap=4 if tier == 'quick' else 7)
+    chk.job(job_split_replace, 'split+replace', cap=5 if tier == 'quick' else 7)
     chk.bounds = dict(argument_chars=cap, numeric_arguments='<= 3 chars', range_span='<= 4')
     chk.assumptions = ['for one-line wrappers around a std function the engine model and the oracle are the same specification: the check covers the command plumbing '
                        '(argument order/count, error paths, output formatting) and the unit consistency relation, not std itself',
-                       'n/a parts: calc (evalexpr), less_than/greater_than on operands that are not plain integer literals (f64), uppercase/lowercase (Unicode tables), concat (script-implemented), replace/split (std pattern code)',
+                       'n/a parts: calc (evalexpr), less_than/greater_than on operands that are not plain integer literals (f64), uppercase/lowercase (Unicode tables), concat (script-implemented; its body is run by C19 in the thorough tier), split/replace with an empty pattern',
                        'substring with end index == length is left unconstrained as the property says']
     results = chk.run()
     return chk.finish(results, 'every obligation is a solver query over all argument strings within the bounds')
